@@ -724,6 +724,20 @@ func (e *evaluator) evalCall(call *ast.CallExpr) *Term {
 		if relP != nil {
 			result = mk("slice", result, mk("len", relP), atom("_")).withType(result.Typ)
 		}
+		// an expression method of a record type (one return statement over the receiver's fields and the arguments, such as
+		// "the instant from which the deposit is refundable"): its value on this receiver and these arguments
+		if g := ci.fn; g != nil && g.Recv != nil && ci.recv != nil && g.Body != nil && g.isHandWritten() && g.pkgName() == "types" &&
+			len(g.Body.List) == 1 && namedStruct(g.Recv.Type()) != "" && isTimeOrBool(g.Res) && mentionsTime(g) {
+			if _, isRet := g.Body.List[0].(*ast.ReturnStmt); isRet {
+				if v := e.p.valueSummary(g); v != nil {
+					m := map[string]*Term{"Precv": ci.recv}
+					for i, a := range ci.args {
+						m[fmt.Sprintf("P%d", i)] = a
+					}
+					result = simplify(v.Subst(m))
+				}
+			}
+		}
 	default:
 		ci.name = "dyn"
 		ci.fun = e.eval(call.Fun)
@@ -1166,4 +1180,27 @@ func relIter(t *Term) (*Term, *Term, bool) {
 		return nil, nil, false
 	}
 	return &Term{Op: t.Op, A: t.A[:2], Typ: t.Typ, Obj: t.Obj, Pos: t.Pos}, t.A[2].A[0], true
+}
+
+// isTimeOrBool: the single result of an expression method is a time or a truth value.
+func isTimeOrBool(res []*types.Var) bool {
+	if len(res) != 1 {
+		return false
+	}
+	tn := typeName(res[0].Type())
+	return tn == "time.Time" || tn == "bool"
+}
+
+// mentionsTime: the method takes or returns a time (the expression methods made transparent are the time computations of
+// the records; other one-line predicates keep their own name, which rules refer to).
+func mentionsTime(g *Func) bool {
+	if len(g.Res) == 1 && typeName(g.Res[0].Type()) == "time.Time" {
+		return true
+	}
+	for _, pr := range g.Params {
+		if tn := typeName(pr.Type()); tn == "time.Time" || tn == "time.Duration" {
+			return true
+		}
+	}
+	return false
 }
